@@ -17,7 +17,7 @@ TInject == /\ IsEvent("inject")
            /\ ObsOK(Ev.c, SeqToSet(Ev.obs))
            /\ n' = n + 1 /\ UNCHANGED <<last, serving>>
 TLate == /\ IsEvent("late")
-         /\ Ev.cls \in MayObs(Outcome(Ev.c))
+         /\ Ev.cls \in MayObsC(Ev.c)
          /\ UNCHANGED <<n, last, serving>>
 TNoise == IsEvent("noise") /\ n' = n + Ev.n /\ UNCHANGED <<last, serving>>
 (* Serving: the probes succeed after any sequence.  `est` (the connection that
